@@ -305,9 +305,13 @@ def parse_myth_branch(name, stmts, params):
             if m:
                 e["const"] = m.group(1)
                 continue
-            m = re.match(r"^(?:ret=)?(?:\(pthread_t\))?(myth_\w+_body)\((.*)\)$", t)
+            if t == "ret=0" and e["mythFn"] and e["ret"] == ("ident",) and e.get("discarded"):
+                e["ret"] = ("zero",)
+                continue
+            m = re.match(r"^(ret=)?(?:\(pthread_t\))?(myth_\w+_body)\((.*)\)$", t)
             if m:
-                do_call(m.group(1), m.group(2))
+                do_call(m.group(2), m.group(3))
+                e["discarded"] = m.group(1) is None
                 continue
             raise ParseError("%s: unknown statement in the MassiveThreads branch: `%s`" % (where, t))
         if st[0] == "if":
@@ -409,6 +413,8 @@ def parse_wrappers(text):
                 else:
                     ent["kind"] = "forward"
                     ent["mythFn"], ent["mythArgs"], ent["ret"] = b["mythFn"], b["mythArgs"], b["ret"]
+                    if rtype != "void" and b.get("discarded") and b["ret"] == ("ident",):
+                        raise ParseError("%s: the result of %s is discarded and `ret` is never assigned" % (where, b["mythFn"]))
                 continue
             raise ParseError("%s: unknown top-level construct (%s %s)" % (where, st[0], st[1]))
         if not ent["kind"]:
@@ -455,6 +461,53 @@ def parse_ld_opts():
     if len(set(names)) != len(names):
         raise ParseError("myth-ld.opts lists a name twice")
     return names
+
+
+def real_targets(names):
+    """src/myth_real.c: for every `real_f` definition, the function called in the MYTH_WRAP_LD branch
+    and in the MYTH_WRAP_DL branch, with the argument list checked against the parameter list"""
+    text = open(os.path.join(common.REPO, "src", "myth_real.c")).read()
+    text = re.sub(r"/\*.*?\*/", " ", text, flags=re.S)
+    out = []
+    for m in re.finditer(r"^[\w \*]+?\breal_(\w+)\s*\(", text, flags=re.M):
+        name = m.group(1)
+        if name not in names:
+            continue                      # malloc / socket families: not wrapped by myth_wrap_pthread.c
+        p0 = m.end() - 1
+        p1 = match_close(text, p0, "(", ")")
+        j = p1 + 1
+        while j < len(text) and text[j].isspace():
+            j += 1
+        if j >= len(text) or text[j] != "{":
+            continue                      # a prototype
+        b1 = match_close(text, j, "{", "}")
+        body = text[j + 1:b1]
+        plist = split_args(text[p0 + 1:p1])
+        params = [] if [norm(x) for x in plist] in ([], ["void"]) else [param_name(p) for p in plist]
+        if "..." in text[p0 + 1:p1]:
+            continue                      # variadic (fcntl): not a pthread function
+        br = {}
+        if re.search(r"#\s*if", text[p0:p1]) or len(re.findall(r"#\s*if", body)) != 1:
+            out.append((name, "?", "?"))   # nested configuration conditionals: recorded as unknown, never guessed
+            continue
+        for var in ("MYTH_WRAP_LD", "MYTH_WRAP_DL"):
+            mm = re.findall(r"#elif MYTH_WRAP == %s\s*\n(.*?)(?=#elif|#else|#endif)" % var, body, flags=re.S)
+            if len(mm) != 1:
+                raise ParseError("myth_real.c: real_%s has %d %s branches" % (name, len(mm), var))
+            stmts = [norm(x) for x in mm[0].split(";") if norm(x)]
+            call = stmts[-1]
+            cm = re.match(r"^(?:return )?([\w\.]+)\((.*)\)$", call)
+            if not cm:
+                raise ParseError("myth_real.c: real_%s: cannot read the %s branch `%s`" % (name, var, call))
+            args = [a.strip() for a in split_args(cm.group(2))]
+            if args != params:
+                raise ParseError("myth_real.c: real_%s passes %s instead of its parameters %s (%s)" % (name, args, params, var))
+            br[var] = cm.group(1)
+        out.append((name, br["MYTH_WRAP_LD"], br["MYTH_WRAP_DL"]))
+    missing = sorted(set(names) - {o[0] for o in out})
+    if missing:
+        raise ParseError("myth_real.c: no definition of real_* for %s" % missing)
+    return out
 
 
 def unimplemented_bodies():
@@ -591,6 +644,8 @@ def lean_ret(r):
         return ".noReturn"
     if r[0] == "errnoMinusOne":
         return ".errnoMinusOne"
+    if r[0] == "zero":
+        return ".zero"
     if r[0] == "mapElseZero":
         return "(.mapElseZero %s %s)" % (lstr(r[1]), lstr(r[2]))
     if r[0] == "nonzeroToZeroElse":
@@ -624,6 +679,7 @@ inductive RetMap where
   | mapElseZero (frm to : String)          -- `if (ret == frm) ret = to; else assert(ret == 0);`
   | nonzeroToZeroElse (e : String)         -- `if (body(...)) ret = 0; else ret = e;`
   | errnoMinusOne                          -- `if (ret != 0) { errno = ret; ret = -1; }`
+  | zero                                   -- `body(...); ret = 0;` (the body's result is not an error number)
   | noReturn                               -- void function
   deriving DecidableEq, Repr
 
@@ -648,7 +704,7 @@ structure Entry where
 '''
 
 
-def emit(entries, opts, handler, attr, should, sizes, vals, same, unimpl):
+def emit(entries, opts, handler, attr, should, sizes, vals, same, unimpl, reals):
     out = [HEADER]
     out.append("/-- every `__wrap(f)` function of myth_wrap_pthread.c compiled in this configuration -/")
     out.append("def table : List Entry := [")
@@ -669,6 +725,11 @@ def emit(entries, opts, handler, attr, should, sizes, vals, same, unimpl):
         out.append("]\n")
     out.append("/-- `myth_*_body` functions whose definition calls `unimplemented()` (abort) -/")
     out.append("def unimplementedBodies : List String := [%s]\n" % ", ".join(lstr(u) for u in unimpl))
+    out.append("/-- src/myth_real.c: (f, callee of real_f in the link-time-wrapped build, callee in the preloaded build);")
+    out.append("    the arguments are the parameters in order (checked by the translator) -/")
+    out.append("def realTargets : List (String × String × String) := [")
+    out.append(",\n".join("  (%s, %s, %s)" % (lstr(a), lstr(b), lstr(c)) for a, b, c in reals))
+    out.append("]\n")
     out.append("/-- `assert(sizeof(a) <= sizeof(b))` statements found in the wrappers -/")
     out.append("def sizeAsserts : List (String × String) := [%s]\n" % ", ".join("(%s, %s)" % (lstr(a), lstr(b)) for a, b in sizes))
     out.append("-- numeric facts printed by a probe compiled against the real headers")
@@ -692,7 +753,7 @@ def extract():
     should = flatten(function_body(t_ld, r"static\s+int\s+myth_should_wrap_pthread\s*\(\s*void\s*\)\s*\{", "myth_should_wrap_pthread"))
     opts = parse_ld_opts()
     vals = probe()
-    return e_ld, opts, handler, attr, should, sorted(set(sizes)), vals, same, unimplemented_bodies()
+    return e_ld, opts, handler, attr, should, sorted(set(sizes)), vals, same, unimplemented_bodies(), real_targets([e["name"] for e in e_ld])
 
 
 def run():
